@@ -284,8 +284,14 @@ def _extract_shortform_citation(
 
     # Get pin_cite
     cite_token = cast(CitationToken, words[index])
+    # The page after "at" is the start of the pin cite, but only if it is
+    # also the end of the matched text: some templates continue after it,
+    # e.g. "15 at 55 (La.App. 4 Cir. 8/2/17)"
+    page_prefix = cite_token.groups["page"] or ""
+    if not str(cite_token).endswith(page_prefix):
+        page_prefix = ""
     pin_cite, span_end, parenthetical = extract_pin_cite(
-        words, index, prefix=cite_token.groups["page"]
+        words, index, prefix=page_prefix
     )
     span_end = span_end if span_end else 0
 
